@@ -144,7 +144,7 @@ func checkC04(c *km.Ctx) {
 	// JWTClaims returns nil only when some key verified
 	if jwtClaims != nil {
 		for _, rc := range s.RetCases(jwtClaims) {
-			if !km.IsNilConst(rc.Ret.Results[0]) {
+			if !km.IsNilConst(rc.Results[0]) {
 				continue
 			}
 			okk := rc.State.All(func(k km.Conj) bool {
@@ -443,7 +443,7 @@ func honourPoints(c *km.Ctx, s *km.Sem, fn *ssa.Function, call *ssa.Call) []hono
 	res := fn.Signature.Results()
 	if res.Len() > 0 && types.Identical(res.At(res.Len()-1).Type(), types.Universe.Lookup("error").Type()) {
 		for _, rc := range s.RetCases(fn) {
-			last := rc.Ret.Results[len(rc.Ret.Results)-1]
+			last := rc.Results[len(rc.Results)-1]
 			if !km.IsNilConst(last) {
 				// a serialiser's error passed through is still a success path (re-mint)
 				if cl, _ := callRes(km.Unwrap(last)); cl == nil || !strings.HasSuffix(km.CalleeFull(cl.Common()), "Serialize") {
@@ -605,10 +605,10 @@ func checkVerifierAlgos(c *km.Ctx, s *km.Sem) {
 	allowed := map[string]bool{"EdDSA": true, "ES256": true, "ES384": true, "ES512": true, "RS256": true, "RS384": true, "RS512": true, "PS256": true, "PS384": true, "PS512": true}
 	if fn := c.MustFunc("R-C04-1", "cmd/keymasterd", "publicToPreferedJoseSigAlgo"); fn != nil {
 		for _, rc := range s.RetCases(fn) {
-			if !km.IsNilConst(rc.Ret.Results[1]) {
+			if !km.IsNilConst(rc.Results[1]) {
 				continue
 			}
-			alg, ok := km.ConstString(rc.Ret.Results[0])
+			alg, ok := km.ConstString(rc.Results[0])
 			r.Add("R-C04-1", km.FuncName(fn), "algorithm returned without error", posOf(c, rc.Ret), "a constant asymmetric signature algorithm (never none / HS*)", alg, ok && allowed[alg])
 		}
 	}
@@ -742,10 +742,10 @@ func infoHonourPoints(c *km.Ctx, s *km.Sem, fn *ssa.Function, call *ssa.Call) []
 	if res.Len() == 2 && km.NamedTypeOf(res.At(0).Type()) == KMD+".authInfo" {
 		// checkAuth: the success return that hands out this info
 		for _, rc := range s.RetCases(fn) {
-			if !km.IsNilConst(rc.Ret.Results[1]) {
+			if !km.IsNilConst(rc.Results[1]) {
 				continue
 			}
-			if a, ok := km.Unwrap(rc.Ret.Results[0]).(*ssa.Alloc); ok && allocStoresWhole(a, km.CalleeFull(call.Common())) {
+			if a, ok := km.Unwrap(rc.Results[0]).(*ssa.Alloc); ok && allocStoresWhole(a, km.CalleeFull(call.Common())) {
 				out = append(out, honourPoint{rc.Ret, "admitting the session"})
 			}
 		}
